@@ -162,8 +162,16 @@ def n4_asserts(text, applied, where):
             parts = _split_top(inner)
             if len(parts) < 2:
                 break
-            new = "assert!((%s) %s (%s))" % (parts[0].strip(), opr, parts[1].strip())
-            applied.add("N4", where, "%s!(..) -> assert!(.. %s ..)" % (macro, opr))
+            if "|" in rustlex.mask(parts[0]) or "|" in rustlex.mask(parts[1]):
+                # an operand holds a closure: std's assert! would parse it as plain Rust, so a closure contract could not
+                # be attached.  Bind the operands first (same evaluation order), then assert.
+                new = ("{\n        let verif_lhs = %s;\n        let verif_rhs = %s;\n        assert!(verif_lhs %s verif_rhs);\n        }"
+                       % (parts[0].strip(), parts[1].strip(), opr))
+                applied.add("N4", where, "%s!(a, b) -> { let verif_lhs = a; let verif_rhs = b; assert!(verif_lhs %s verif_rhs); } "
+                                         "(an operand contains a closure)" % (macro, opr))
+            else:
+                new = "assert!((%s) %s (%s))" % (parts[0].strip(), opr, parts[1].strip())
+                applied.add("N4", where, "%s!(..) -> assert!(.. %s ..)" % (macro, opr))
             out = out[:m.start()] + new + out[c + 1:]
     n = len(re.findall(r"\bdebug_assert!\s*\(", rustlex.mask(out)))
     if n:
